@@ -28,10 +28,11 @@ Module ProdP.
   Definition dH (p : dpc) : nat := match p with DHold => 1 | _ => 0 end.
   Definition dDn (p : dpc) : nat := match p with DDone => 1 | _ => 0 end.
   Lemma d_spec p : dH p + dDn p <= 1. Proof. destruct p; cbn; lia. Qed.
-  Definition tH (p : tpc) : nat := match p with THold => 1 | _ => 0 end.
+  Definition tH (p : tpc) : nat := match p with THold | TSend => 1 | _ => 0 end.
+  Definition tS (p : tpc) : nat := match p with TSend => 1 | _ => 0 end.
   Definition tDn (p : tpc) : nat := match p with TDone => 1 | _ => 0 end.
   Definition tNo (p : tpc) : nat := match p with TNone => 1 | _ => 0 end.
-  Lemma t_spec p : tH p + tDn p + tNo p <= 1. Proof. destruct p; cbn; lia. Qed.
+  Lemma t_spec p : tH p + tDn p + tNo p <= 1 /\ tS p <= tH p. Proof. destruct p; cbn; lia. Qed.
   Definition pH (p : ppc) : nat := match p with PHold => 1 | _ => 0 end.
   Definition pSt (p : ppc) : nat := match p with PStart => 1 | _ => 0 end.
   Definition pNo (p : ppc) : nat := match p with PNone => 1 | _ => 0 end.
@@ -82,7 +83,7 @@ Module ProdP.
     i_tno : tNo (tp s) = 1 -> tpq s = 0;
     i_pno2 : pNo (pp s) = 1 -> ppq s + ppbuf s + p_mark s = 0;
     (* a partition producer that is still prefetching has its first message waiting *)
-    i_pst : pSt (pp s) <= ppq s + t_hold s;
+    i_pst : pSt (pp s) <= ppq s + tS (tp s);
     (* the worker reference *)
     i_ref : b_refs s = b2n (pp_ref s) /\ b2n (pp_ref s) + b2n (b_in_closed s) <= 1 /\
             1 <= b2n (pp_ref s) + bNo (bp s) + b2n (b_in_closed s) /\ b2n (pp_ref s) + bNo (bp s) <= 1 /\
@@ -157,7 +158,7 @@ Module ProdP.
       match goal with Hpn : b2n (panic _) = 0 |- _ =>
         let Hp := fresh "Hp" in pose proof (b2n_0 _ Hpn) as Hp; try rewrite Hp in * end;
       unfold tokens in *; unacc; rew_eqs s;
-      cbn [sM sLate sI sR sE sS s0 dH dDn tH tDn tNo pH pSt pNo pAct pLive aW bHd bRs bNo bLate bDn bSel brB brDn b2n orb andb] in *;
+      cbn [sM sLate sI sR sE sS s0 dH dDn tH tS tDn tNo pH pSt pNo pAct pLive aW bHd bRs bNo bLate bDn bSel brB brDn b2n orb andb] in *;
       (constructor; red_goal; rew_goal s; red_goal; try lia; bool_goal; bool_hyps; try lia)
     end.
   Ltac go s H I :=
